@@ -173,6 +173,10 @@ Qed.
 
 Definition special (o : bop) : bool := match o with FcPayout _ _ _ | MsAllocate _ _ _ _ => true | _ => false end.
 
+(* the shape of Undelegate is a generated constant: proofs cover both values *)
+Ltac split_variant H :=
+  try (match type of H with context [undelegate_pro_rata] => revert H; destruct undelegate_pro_rata; intro H end).
+
 Ltac guard_inv H :=
   unfold guard in H;
   match type of H with (if ?c then _ else _) = _ => destruct c eqn:G; [inversion H; subst; clear H | discriminate] end.
@@ -215,8 +219,8 @@ Lemma compile_balanced : forall o s es m, compile o s = Some es -> special o = f
   balanced_for es m.
 Proof.
   intros o s es m H Sp Hm d.
-  destruct o; cbn [special] in Sp; try discriminate; cbn [compile] in H; guard_inv H.
-  all: try (repeat (apply andb_prop in G as [G ?]); user_facts;
+  destruct o; cbn [special] in Sp; try discriminate; cbn [compile] in H; split_variant H; guard_inv H.
+  all: try (unfold undel_guard, undel_effs in *; repeat (apply andb_prop in G as [G ?]); user_facts;
             cbn [effs_liab effs_bal eff_liab eff_bal]; split_eqb; consts; lia).
   - (* MsSlash *)
     repeat (apply andb_prop in G as [G ?]).
@@ -489,6 +493,11 @@ Proof.
   repeat split; split_eqb; consts; lia.
 Qed.
 
+Lemma redeem_burn_same : forall K x, 0 < K -> redeem_burn K K x = x.
+Proof.
+  intros K x HK. unfold redeem_burn. rewrite Z.div_add_l by lia. rewrite Z.div_small by lia. lia.
+Qed.
+
 Record SM (s : state) : Prop := mkSM { sm_unslashed : unslashed s; sm_match : shares_match s }.
 
 Lemma exec_SM : forall o s s', exec o s = Some s' -> is_slash o = false -> SM s -> SM s'.
@@ -497,12 +506,14 @@ Proof.
   destruct (apply_effs_records _ _ _ H) as (B & A). destruct (apply_effs_deltas _ _ _ H) as (_ & S & _ & _).
   assert (Hes : (forall p, effs_aux es A_SLASHED p 0 = 0) /\
                 (forall p d, 1 <= p < 1000 -> 0 <= d < 100 -> effs_sup es (share p d) = effs_book es MS K_STAKED p d)).
-  { destruct o; cbn [is_slash] in NS; try discriminate; cbn [compile] in C; guard_inv C.
+  { destruct o; cbn [is_slash] in NS; try discriminate; cbn [compile] in C; split_variant C; guard_inv C.
     all: try (split; [intro p0 | intros p0 d0 Hp Hd];
+              unfold undel_guard, undel_effs in *;
               repeat (apply andb_prop in G as [G ?]); user_facts;
               repeat match goal with Hn : is_native _ = true |- _ => apply is_native_spec in Hn end;
               cbn [effs_aux effs_sup eff_sup effs_book];
               try (rewrite (U p), pool_coin_unslashed by lia);
+              try (rewrite (M p d) by lia; rewrite redeem_burn_same by lia);
               unfold K_STAKED, K_UNDEL, K_REWARD, K_BTOKEN, K_SURPLUS, K_SPOOL, K_TIP, A_SLASHED, A_TREASURY, A_BAMOUNT in *;
               split_eqb; consts; unfold is_native in *; lia).
     - (* BkBurn *)
@@ -711,3 +722,29 @@ Lemma checker_reads_model : forall o a m d,
   obal o a d = bal (to_state o) a d /\ osup o d = supply (to_state o) d /\
   osum o d = total (to_state o) d /\ oliab o m d = liab (to_state o) m d.
 Proof. intros. repeat split; reflexivity. Qed.
+
+(* ---------------------------------------------------------------- repaired redemption (GetRedeemPoolCoins) *)
+Lemma redeem_burn_covers : forall S K x, 0 < K -> x * S <= redeem_burn S K x * K.
+Proof.
+  intros S K x HK. unfold redeem_burn.
+  pose proof (Z.div_mod (x * S + (K - 1)) K ltac:(lia)). pose proof (Z.mod_pos_bound (x * S + (K - 1)) K HK). nia.
+Qed.
+
+(* the shares-per-stake ratio of the pool never rises by a redemption: the remaining holders are not diluted *)
+Lemma redeem_no_dilution : forall S K x, 0 < K ->
+  (S - redeem_burn S K x) * K <= S * (K - x).
+Proof. intros S K x HK. pose proof (redeem_burn_covers S K x HK). nia. Qed.
+
+Lemma redeem_sum : forall S K (rs : list (Z * Z)), 0 < K ->
+  Forall (fun r => 0 <= snd r /\ redeem_burn S K (snd r) <= fst r) rs ->
+  zsum (map snd rs) * S <= zsum (map fst rs) * K.
+Proof.
+  intros S K rs HK F. induction F as [|[h x] l [Hx Hb] Fl IH]; cbn [map fst snd] in *.
+  - cbn. lia.
+  - rewrite !zsum_cons. pose proof (redeem_burn_covers S K x HK). nia.
+Qed.
+
+Theorem shares_redeemable_pro_rata_all : forall s, shares_redeemable_pro_rata s.
+Proof.
+  intros s p d rs S K HK HS F Hh. pose proof (redeem_sum S K rs HK F). nia.
+Qed.
